@@ -201,7 +201,7 @@ def check_pattern(ctx, tr, rng, k, j, forced=None):
                 ctx.disagree('a relative pattern matches an absolute path under REALPATH', dict(wit, candidate=os.path.join(root, c)))
                 break
     # a pattern that demands a directory matches a path written without separator exactly when it is a directory
-    if isinstance(pats, str) and not kw and text.endswith('/') and 'NODIR' not in fn and 'MATCHBASE' not in fn:
+    if toks and isinstance(pats, str) and not kw and text.endswith('/') and 'NODIR' not in fn and 'MATCHBASE' not in fn:
         ps = R.PathSpec(globstar='GLOBSTAR' in fn or 'GLOBSTARLONG' in fn, globstarlong='GLOBSTARLONG' in fn)
         segs = R.split_segments(toks[0])
         if segs[1] and not R.seg_is_gstar(segs[1][-1], ps) and not any(R.nullable(R.norm_seg(sg)) for sg in segs[1]):
@@ -227,8 +227,39 @@ def check_pattern(ctx, tr, rng, k, j, forced=None):
                     'accepted_by_globmatch': sorted(accepted)[:6]})
 
 
+# names made of pattern punctuation: glob's own splitter (which decides where a segment ends and whether it is "magic") and the
+# matcher's parser are two implementations that must agree on where brackets and extended groups end
+PUNCT_TREE = [('abc]', 'd', None), ('abc]/d)', 'f', None), ('[a', 'd', None), ('[a/b]', 'f', None), ('a', 'd', None), ('a/b', 'f', None),
+              ('a)b', 'f', None), ('a]b', 'f', None), ('x(y', 'd', None), ('x(y/z', 'f', None), ('ab', 'd', None), ('ab/c]', 'f', None),
+              ('p|q', 'f', None), ('a[b', 'f', None), ('@(ab)c]', 'd', None), ('@(ab)c]/d)', 'f', None), ('a\\', 'd', None), ('a\\/b', 'f', None)]
+PUNCT_PATTERNS = ['@(ab)c]/d)', '[a/b]', '@(a/b)', '@(a[)]b)', '@(a[/]b)', 'a*(a|b]c)', '@(ab)c]/@(d\\))', 'x(y/z', '@(x\\(y)/z', '@(x(y)/z',
+                  '?(a)bc]/*', '!(a)c]/d)', '@(a|ab)/*]', '@(ab)/c]', '[[]a/b[]]', 'a[[]b', '@(a])b', '@(a]b)', '@(p|q)', '@(p\\|q)', 'p|q',
+                  '@(a[b)', '+(a[)b]|a)b)', '@(ab)c]/d[)]', '@(ab)c]/*', '*]/*)', '*/*]', '[[]a/*', '@(ab|x)c]/d)', '@(@(ab)c])/d)',
+                  '@(a[b)c]/d)', '*(ab)c]/d)', '+(ab)c]/[d])', '@(ab)c[]]/d)', '[@](ab)c]/d)', '\\@(ab)c]/d)', 'a\\\\/b', '@(a\\\\)/b',
+                  '[a\\\\]/b', 'a[\\\\]/b', '@(a[\\\\])/b', '**/d)', '**/*]', '@(**)/d)', 'ab{c],/c]}', '{abc]/d),x}', '@(ab{c],})/d)']
+PUNCT_FLAGSETS = [('EXTGLOB', 'GLOBSTAR'), ('EXTGLOB',), (), ('EXTGLOB', 'GLOBSTAR', 'DOTGLOB', 'BRACE'), ('EXTGLOB', 'BRACE'), ('EXTGLOB', 'NODIR'),
+                  ('EXTGLOB', 'GLOBSTAR', 'MATCHBASE'), ('EXTGLOB', 'IGNORECASE')]
+
+
+def punctuation_scenarios(ctx):
+    idx, todo = 0, []
+    for text in PUNCT_PATTERNS:
+        for fn in PUNCT_FLAGSETS:
+            idx += 1
+            if ctx.mine(idx):
+                todo.append((text, fn))
+    if not todo:
+        return
+    with T.Tree(PUNCT_TREE, 'c04p-') as tr:
+        for text, fn in todo:
+            with ctx.case(timeout=20, label=('punct', text, fn)):
+                check_pattern(ctx, tr, ctx.rng_for('punct', text, fn), 0, 0, forced=([], text, list(fn), text, {}, 'root_dir'))
+                ctx.count('punctuation_scenario_cases')
+
+
 def run(ctx):
     quick = ctx.quick
+    punctuation_scenarios(ctx)
     k = 0
     limit = 120 if quick else 10 ** 9
     while k < limit and not ctx.out_of_time():
